@@ -238,13 +238,13 @@ func (l *listener) addConn(conn net.Conn) bool {
 func (l *listener) removeConn(conn net.Conn) {
 	l.mu.Lock()
 	defer l.mu.Unlock()
-	if l.conns == nil {
-		return
+	// conns is nil after Stop, the conn is still one of ours then.
+	if l.conns != nil {
+		if _, ok := l.conns[conn]; !ok {
+			return
+		}
+		delete(l.conns, conn)
 	}
-	if _, ok := l.conns[conn]; !ok {
-		return
-	}
-	delete(l.conns, conn)
 	l.stats.CxDestroyTotal.Inc()
 	l.stats.CxActive.Dec()
 }
